@@ -305,4 +305,9 @@ theorem t3ReadRsp_length (n : Nat) (d r : Bytes) (h : t3ReadRsp n d = .ok r) : r
 /-- a count octet of the service / block list: at most 255 entries -/
 def t3Count (n : Nat) : Py Bytes := if n > 255 then .error .value else .ok [n]
 
+/-- the parts of a polling answer: IDm, PMm and, for an 18 octet answer, the request data -/
+def t3PollingParts (d : Bytes) : List Bytes :=
+  if d.length = 16 then [d.take 8, (d.drop 8).take 8] else [d.take 8, (d.drop 8).take 8, (d.drop 16).take 2]
+
+
 end NfcVerif.TagCmdRef
